@@ -96,6 +96,8 @@ pub enum RunEnd {
     Budget,
     /// one task kept waking itself with no progress anywhere
     BusyLoop(String),
+    /// a task panicked: the run stops at once (locks may be poisoned)
+    Panicked,
 }
 
 pub struct Exec {
@@ -182,6 +184,9 @@ impl Exec {
                 streak_progress = self.progress.get();
             }
             self.poll_task(i);
+            if self.tasks[i].panicked.is_some() {
+                return RunEnd::Panicked;
+            }
         }
     }
 
@@ -207,8 +212,8 @@ impl Exec {
             Err(_) => {
                 t.done = true;
                 t.panicked = Some(crate::util::take_panic().unwrap_or_else(|| "panic".into()));
-                // dropping the future runs destructors of a half-broken object; contain that too
-                let _ = std::panic::catch_unwind(std::panic::AssertUnwindSafe(move || drop(fut)));
+                // the future owns half-broken objects (poisoned locks): leak it
+                std::mem::forget(fut);
             }
         }
     }
@@ -231,10 +236,30 @@ impl Exec {
 
     /// Drop all task futures (end of case), containing panics in destructors.
     pub fn teardown(&mut self) {
+        if self.any_panic().is_some() {
+            // state may be poisoned: destructors of the remaining handles could panic while another
+            // panic is being handled (abort). Leak everything instead.
+            for t in self.tasks.iter_mut() {
+                if let Some(f) = t.fut.take() {
+                    std::mem::forget(f);
+                }
+            }
+            let mut q = self.spawn_q.borrow_mut();
+            for (_, _, f, _) in q.drain(..) {
+                std::mem::forget(f);
+            }
+            return;
+        }
         for t in self.tasks.iter_mut() {
             if let Some(f) = t.fut.take() {
-                let _ = std::panic::catch_unwind(std::panic::AssertUnwindSafe(move || drop(f)));
+                if std::panic::catch_unwind(std::panic::AssertUnwindSafe(move || drop(f))).is_err() && t.panicked.is_none() {
+                    t.panicked = Some(format!("(in destructor at teardown) {}", crate::util::take_panic().unwrap_or_default()));
+                }
             }
+        }
+        let mut q = self.spawn_q.borrow_mut();
+        for (_, _, f, _) in q.drain(..) {
+            let _ = std::panic::catch_unwind(std::panic::AssertUnwindSafe(move || drop(f)));
         }
     }
 }
@@ -625,7 +650,7 @@ pub fn duplex(exec: &Exec, chunk_c2s: Vec<u32>, chunk_s2c: Vec<u32>, vectored_c:
 
 // ------------------------------------------------------------ API event log
 
-#[derive(Clone, Copy, Debug, PartialEq, Eq, Hash, serde::Serialize, serde::Deserialize)]
+#[derive(Clone, Copy, Debug, PartialEq, Eq, PartialOrd, Ord, Hash, serde::Serialize, serde::Deserialize)]
 pub enum Side {
     Client,
     Server,
